@@ -70,8 +70,13 @@ def main():
             for f in os.listdir(d):
                 if os.path.isfile(os.path.join(d, f)) and os.path.getsize(os.path.join(d, f)) < 400000:
                     shutil.copy(os.path.join(d, f), os.path.join(out, f))
+            needs = {}
+            try:
+                needs = json.load(open(os.path.join(V, "scripts", "seed_needs.json")))
+            except Exception:
+                pass
             meta = {"id": sid, "property": prop, "source": "independent sub-agent given only the property text",
-                    "ran": []}
+                    "needs_to_manifest": needs.get(sid, "see README.md"), "ran": []}
             wt = "/tmp/seedeval-%s" % sid
             sh(["git", "-C", REPO, "worktree", "remove", "--force", wt])
             shutil.rmtree(wt, ignore_errors=True)
